@@ -21,12 +21,12 @@ namespace vf {
 
 enum OpK {
   O_INS_C, O_INS_M, O_EMPLACE, O_INS_HINT, O_EMPLACE_HINT, O_ERASE_KEY, O_ERASE_POS, O_ERASE_RANGE, O_EXTRACT_KEY, O_EXTRACT_POS,
-  O_REINSERT_NODE, O_CLEAR, O_RANGE, O_LOOKUP, O_COPY, O_MOVE, O_COPY_ASSIGN, O_MOVE_ASSIGN, O_ERASE_LOOP, O_WALK, O_IL, O_ASSIGN_IL, O_ERASE_IF, O_NOPS
+  O_REINSERT_NODE, O_CLEAR, O_RANGE, O_LOOKUP, O_COPY, O_MOVE, O_COPY_ASSIGN, O_MOVE_ASSIGN, O_ERASE_LOOP, O_WALK, O_IL, O_ASSIGN_IL, O_ERASE_IF, O_BULK, O_NOPS
 };
 inline const char *opname(int k) {
   static const char *n[] = {"insert(const&)", "insert(&&)", "emplace", "insert(hint,v)", "emplace_hint", "erase(key)", "erase(pos)", "erase(first,last)",
                             "extract(key)", "extract(pos)", "extract+insert(node)", "clear", "insert(range)", "lookup", "ctor(copy)", "ctor(move)",
-                            "operator=(const&)", "operator=(&&)", "erase-while-iterating", "walk", "insert(il)", "operator=(il)", "erase_if"};
+                            "operator=(const&)", "operator=(&&)", "erase-while-iterating", "walk", "insert(il)", "operator=(il)", "erase_if", "insert(bulk range)"};
   return n[k];
 }
 struct Op {
@@ -111,6 +111,10 @@ struct SmallSetEngine : EngineBase {
     return n == N ? "inline-full" : "inline-partial";
   }
 
+  // operator-> must designate the same element as operator*
+  template <class T> static const T *arrow(const T *p) { return p; }
+  template <class It> static auto arrow(const It &it) -> decltype(it.operator->()) { return it.operator->(); }
+
   // walk begin->end with a step cap; returns iteration order and the iterators
   template <class Set>
   bool walk(const Set &s, std::vector<Val> &order, std::vector<typename Set::const_iterator> *its, std::vector<uint32_t> *serials, const char *props) {
@@ -123,6 +127,7 @@ struct SmallSetEngine : EngineBase {
     while (!(it == e)) {
       if (steps == n) { violation(props, "walk.not_terminating", fmt("begin()..end() walk did not reach end() within size()=%zu steps", n)); return false; }
       const E &el = *it;
+      if (static_cast<const E *>(arrow(it)) != &el) { violation(props, "iterator.arrow_differs_from_star", "operator-> of a forward iterator does not designate the element operator* returns"); return false; }
       ElemProbe<E>::probe(el, sn);
       order.push_back(EI<E>::val(el));
       sn.vals.push_back(order.back());
@@ -161,6 +166,7 @@ struct SmallSetEngine : EngineBase {
       while (!(it == re)) {
         if (steps == n) { violation("C11", "walk.reverse_not_terminating", "rbegin()..rend() walk did not reach rend() within size() steps"); return; }
         rord.push_back(EI<E>::val(*it));
+        if (static_cast<const E *>(arrow(it)) != &*it) { violation("C11", "iterator.arrow_differs_from_star", "operator-> of a reverse iterator does not designate the element operator* returns"); return; }
         ++it;
         ++steps;
       }
@@ -431,6 +437,19 @@ struct SmallSetEngine : EngineBase {
         if (m.size() > N) b.entitled = false;
         break;
       }
+      case O_BULK: {  // op.i keys starting at op.key with stride op.j (large inline capacities)
+        std::vector<Val> vals;
+        for (int q = 0; q < op.i; ++q) vals.push_back(mkval((op.key + q * op.j) % keydom));
+        size_t newc = 0;
+        { MonScope mm; Model t(m); for (auto &v : vals) t.insert(v); newc = t.size(); }
+        note(fmt("n=%d,%s", op.i, newc > N && sz0 <= N ? "crosses" : "stays"));
+        with_range<E>(op.rkind, vals, [&](auto f, auto l) { window([&] { s.insert(f, l); }); });
+        if (threw) { violation("C04", "model.unexpected_exception", threw_what); return; }
+        MonScope mm;
+        m.insert(vals.begin(), vals.end());
+        if (m.size() > N) b.entitled = false;
+        break;
+      }
       case O_LOOKUP: {
         Val x = mkval(op.key);
         const Val *ex = mfind(m, x);
@@ -516,7 +535,7 @@ struct SmallSetEngine : EngineBase {
         std::vector<Val> order;
         { MonScope mm; if (!walk(s, order, nullptr, nullptr, "C11")) return; }
         std::set<unsigned> victims;
-        for (size_t q = 0; q < order.size(); ++q) if (op.j & (1 << q)) victims.insert(order[q].pay);
+        for (size_t q = 0; q < order.size(); ++q) if ((static_cast<unsigned>(op.j) >> (q % 31)) & 1u) victims.insert(order[q].pay);
         note(victims.empty() ? "none" : victims.size() == order.size() ? "all" : "some");
         size_t visited = 0, erased = 0;
         if (op.k == O_ERASE_IF) {
@@ -843,11 +862,16 @@ struct SmallSetEngine : EngineBase {
     if (o.k == O_COPY_ASSIGN || o.k == O_MOVE_ASSIGN) o.i = rng.below(6);
     o.j = o.k == O_REINSERT_NODE ? rng.below(3) : 0;
     if (o.k == O_ERASE_RANGE) { o.i = rng.below(static_cast<uint32_t>(cursize + 1)); o.j = o.i + rng.below(static_cast<uint32_t>(cursize - o.i + 1)); }
-    if (o.k == O_ERASE_LOOP || o.k == O_ERASE_IF) { int m = rng.below(4); o.j = m == 0 ? ~0 : m == 1 ? (1 << (cursize ? cursize - 1 : 0)) : static_cast<int>(rng.next() & 0xFFFFF); }
+    if (o.k == O_ERASE_LOOP || o.k == O_ERASE_IF) { int m = rng.below(4); o.j = m == 0 ? 0x7FFFFFFF : m == 1 ? (1 << ((cursize ? cursize - 1 : 0) % 31)) : static_cast<int>(rng.next() & 0xFFFFF); }
     o.rn = rng.below(4);
     if (o.k == O_IL || o.k == O_ASSIGN_IL) o.rn = rng.below(4);
     for (int q = 0; q < 3; ++q) o.r[q] = rng.below(keydom);
     o.rkind = rng.below(RK_N);
+    if (SSInfo<SetA>::kN > 16 && rng.chance(1, 6)) {
+      o.k = O_BULK;
+      o.i = 2 + static_cast<int>(rng.below(static_cast<uint32_t>(SSInfo<SetA>::kN)));
+      o.j = 1 + static_cast<int>(rng.below(3));
+    }
     return o;
   }
 
